@@ -72,14 +72,18 @@ def check(run: Run) -> None:
     arg_name = m.find_func("arg_name", in_module=mod)
     _check_arg_name(run, m, arg_name)
     n_builds = 0
+    from ..lib import call_events, call_sites_of
+
     for fi in [f for f in m.funcs.values() if f.module.name == mod]:
-        fa = ctx.analysis(fi)
-        for c in calls_in(fi):
-            if isinstance(c.func, ast.Name) and c.func.id == "lambda_build" and c.args and fa.cfg.has_node(c):
+        if fi.name.startswith("_") and not fi.name.startswith("__") and call_sites_of(m, fi):
+            continue  # a private helper: its lambda_build calls are judged, with the arguments bound, at its callers
+        for ev in call_events(ctx, fi, lambda nm: nm == "lambda_build"):
+            if ev.args:
+                c = ev.call
                 n_builds += 1
-                t = strip_sites(fa.term_of(c.args[0]))
+                t = ev.args[0]
                 ok = all(_is_fresh_name(a) for a in unphi_terms(t))
-                run.check(ok, "C02.R2", fi, stmt_of(c), "binder of a newly built lambda is fresh", f"a new lambda is built with binder {show(t)[:100]}, which is neither arg_name() nor a make_args_unique'd parameter: a free name of the lambda moved under it can be captured", "arg_name()", show(t))
+                run.check(ok, "C02.R2", fi, stmt_of(c) if ev.owner is fi else fi.node, "binder of a newly built lambda is fresh", f"a new lambda is built with binder {show(t)[:100]}, which is neither arg_name() nor a make_args_unique'd parameter: a free name of the lambda moved under it can be captured", "arg_name()", show(t))
     run.floor("C02.R2", n_builds, 5, "lambda_build sites in the simplifier")
     _check_make_args_unique(run, ctx, m)
 
@@ -210,25 +214,42 @@ def _check_make_args_unique(run: Run, ctx, m) -> None:
     if vl is None or vn is None:
         raise AnalysisError("replace_args lost visit_Lambda / visit_Name")
     fl = ctx.analysis(vl)
-    def _bulk(c):
+    class _Op:
+        """a push / pop on a list attribute of self: x.append(e) in a loop, x.extend(seq), x += seq, x.pop() in a loop"""
+
+        def __init__(self, kind, recv, node, seq=None):
+            self.kind, self.recv, self.node, self.seq = kind, recv, node, seq
+
+    def _bulk(op):
         """(CFG anchor, term whose length is the number of stack entries moved) for a push / pop operation"""
         cfg_ = fl.cfg
-        if c.func.attr == "extend" and len(c.args) == 1:
-            return cfg_.node_of(c), strip_sites(fl.term_of(c.args[0]))
-        lp_ = _loop_head(cfg_, c, vl)
+        if op.seq is not None:
+            return cfg_.node_of(op.node), strip_sites(fl.term_of(op.seq))
+        lp_ = _loop_head(cfg_, op.node, vl)
         if lp_ is None:
             return None
         return cfg_.node_of(lp_), strip_sites(fl.term_of(lp_.iter, cfg_.node_of(lp_)))
 
-    stack_ops = [c for c in calls_in(vl) if isinstance(c.func, ast.Attribute) and c.func.attr in ("append", "extend", "pop") and strip_sites(fl.term_of(c.func.value))[0] == "attr" and strip_sites(fl.term_of(c.func.value))[1] == ("param", vl.pos_params[0])]
+    selfp_ = ("param", vl.pos_params[0])
+    stack_ops = []
+    for c in calls_in(vl):
+        if isinstance(c.func, ast.Attribute) and c.func.attr in ("append", "extend", "pop") and fl.cfg.has_node(c):
+            rt_ = strip_sites(fl.term_of(c.func.value))
+            if rt_[0] == "attr" and rt_[1] == selfp_:
+                stack_ops.append(_Op("pop" if c.func.attr == "pop" else "push", rt_, c, c.args[0] if c.func.attr == "extend" and len(c.args) == 1 else None))
+    for n in own_nodes(vl):
+        if isinstance(n, ast.AugAssign) and isinstance(n.op, ast.Add) and isinstance(n.target, ast.Attribute) and fl.cfg.has_node(n):
+            rt_ = strip_sites(fl.term_of(n.target.value))
+            if rt_ == selfp_:
+                stack_ops.append(_Op("push", ("attr", selfp_, n.target.attr), n, n.value))
     by_stack = {}
-    for c in stack_ops:
-        by_stack.setdefault(strip_sites(fl.term_of(c.func.value)), []).append(c)
+    for o in stack_ops:
+        by_stack.setdefault(o.recv, []).append(o)
     # the renaming stack is the attribute that is both pushed to and popped from
-    cands = [v for v in by_stack.values() if any(c.func.attr == "pop" for c in v)]
+    cands = [v for v in by_stack.values() if any(o.kind == "pop" for o in v)]
     ops = cands[0] if len(cands) == 1 else []
-    pushes = [c for c in ops if c.func.attr in ("append", "extend")]
-    pops = [c for c in ops if c.func.attr == "pop"]
+    pushes = [o for o in ops if o.kind == "push"]
+    pops = [o for o in ops if o.kind == "pop"]
     gvs = [c for c in calls_in(vl) if isinstance(c.func, ast.Attribute) and c.func.attr == "generic_visit"]
     ok_order = len(pushes) == 1 and len(pops) == 1 and len(gvs) == 1
     pb = qb = None
@@ -243,7 +264,7 @@ def _check_make_args_unique(run: Run, ctx, m) -> None:
     if ok_order:
         n_push, n_pop = pb[1], qb[1]
         same_len = _len_source(n_push) == _len_source(n_pop) and _len_source(n_push) is not None
-        run.check(same_len, "C02.R2", vl, stmt_of(pops[0]), "as many pops as pushes", f"pushes iterate over {show(n_push)[:80]} but pops over {show(n_pop)[:80]}")
+        run.check(same_len, "C02.R2", vl, stmt_of(pops[0].node), "as many pops as pushes", f"pushes iterate over {show(n_push)[:80]} but pops over {show(n_pop)[:80]}")
     # fresh names for the first lambda, identity (shadow) for nested ones
     fresh = [c for c in calls_in(vl) if isinstance(c.func, ast.Name) and c.func.id == "arg_name"]
     run.check(len(fresh) >= 1, "C02.R2", vl, vl.node, "outermost lambda gets arg_name() names", "replace_args no longer draws new names from arg_name()")
